@@ -298,7 +298,7 @@ def absolute_replaced(context, box, cb_x, cb_y, cb_width, cb_height):
         remaining = cb_width - (box.border_width() + box.left + box.right)
         if box.margin_left == box.margin_right == 'auto':
             if remaining >= 0:
-                box.margin_left = box.margin_right = remaining // 2
+                box.margin_left = box.margin_right = remaining / 2
             else:
                 box.margin_left = 0 if ltr else remaining
                 box.margin_right = remaining if ltr else 0
@@ -329,7 +329,7 @@ def absolute_replaced(context, box, cb_x, cb_y, cb_width, cb_height):
     elif 'auto' in (box.margin_top, box.margin_bottom):
         remaining = cb_height - (box.border_height() + box.top + box.bottom)
         if box.margin_top == box.margin_bottom == 'auto':
-            box.margin_top = box.margin_bottom = remaining // 2
+            box.margin_top = box.margin_bottom = remaining / 2
         elif box.margin_top == 'auto':
             box.margin_top = remaining
         else:
